@@ -92,7 +92,7 @@ Resync ==
        /\ gced' = IF op = "Gc" THEN gced \cup {e.act.s} ELSE gced
        /\ IF op = "TransferBegin" /\ r.op = "xstatus" /\ "exc" \notin DOMAIN r
           THEN /\ xs' = [src |-> e.act.src, dst |-> e.act.dst, req |-> ToSet(e.act.req), shallow |-> e.act.shallow,
-                         F |-> ToSet(e.act.F), verify |-> e.act.verify, idx |-> e.act.idx /\ e.act.dst = IdxStore,
+                         F |-> ToSet(e.act.F), verify |-> e.act.verify, idx |-> e.act.idx /\ e.act.dst = IdxStore, sidx |-> e.act.idx /\ e.act.src = IdxStore,
                          new |-> r.new, missing |-> r.missing, ok |-> {}, pre |-> PresentSet(S, e.act.dst)]
                /\ ph' = IF r.new = {} THEN "idle" ELSE "run"
                /\ todo' = r.new \cap Dirs /\ loose' = r.new \cap Files
@@ -150,6 +150,7 @@ Judge ==
          /\ ((xs.verify => \A o \in L.transferred : Intact(T, xs.dst, o)) \/ Say("VERDICT", "C11", "ArrivedVerified"))
          /\ (C11_AbsentReported(L, T) \/ Say("VERDICT", "C11", "AbsentReported"))
          /\ (C11_PresentUntouched(L) \/ Say("VERDICT", "C11", "PresentUntouched"))
+         /\ (C12_SrcIndexCleared(L, ridx') \/ Say("VERDICT", "C12", "StaleIndexNotCleared"))
          /\ ((\A o \in Oids : Intact(S, xs.src, o) => Intact(T, xs.src, o)) \/ Say("VERDICT", "C11", "SourceUnmodified"))
          /\ ((dev' = {} => C04_Withheld(L, L.failed, okDirs', T, xs.dst)) \/ Say("VERDICT", "C04", "Withheld"))
          /\ ((dev' = {} => C04_Complete(L, T)) \/ Say("VERDICT", "C04", "RetryCompletes"))
